@@ -9,7 +9,7 @@ CONSTANTS
   ReplyClasses <- AllClasses
   StrayClasses <- StrayCls
   MaxReplies = 1
-  MaxStray = 60
+  MaxStray = 250
   MaxEnter = 1
   MaxDelay = 3
   PeerFaults = {"silence"}
@@ -19,6 +19,7 @@ CONSTANTS
   RearmPerRead = FALSE
   NoCloseOnError = FALSE
   RearmAfterConnect = FALSE
+  UdpStrays = "dropped"
 CHECK_DEADLOCK FALSE
 CONSTRAINT HighWater
 POSTCONDITION Report
